@@ -433,6 +433,25 @@ func (e *endpoint) runControl(ph *Phase, phi int) {
 				return
 			}
 		}
+		if st.Act == "connfit" {
+			e.wmu.Lock()
+			s.mu.Lock()
+			need := e.totalUndelivered() - e.connWin()
+			s.mu.Unlock()
+			if need > 1 {
+				e.writeWU(0, uint32(need-1))
+			}
+			if need > 0 {
+				e.writeWU(0, 1)
+			}
+			e.wmu.Unlock()
+			s.mu.Lock()
+			if need > 0 && e.maxIncSent == 0 {
+				e.maxIncSent = 1
+			}
+			s.mu.Unlock()
+			continue
+		}
 		for r := 0; r < st.Rep; r++ {
 			e.wmu.Lock()
 			s.mu.Lock()
